@@ -90,6 +90,9 @@ def _lens(ctx, u, dense_q=96, dense_t=4096, big=True, step=1, minimum=0):
     extra = [r.randint(dense + 1, 4096) for _ in range(4 if ctx.tier == 'quick' else 24)] if dense < 4096 else []
     if big:
         extra += [r.randint(4097, 20000) for _ in range(1 if ctx.tier == 'quick' else 3)]
+        # beyond the internal chunk sizes an implementation may use (16 KiB, 64 KiB)
+        longs = [16385, 32769, 65537, 16384, 65536, 16383, 65535, 131073]
+        extra += [longs[(u['lo'] + ctx.unit.get('_i', 0)) % 3]] if ctx.tier == 'quick' else longs
     ls += [v - v % step for v in extra]
     # the seeded extras differ per unit on purpose; slicing keeps units disjoint on the dense part
     return [n for i, n in enumerate(ls) if i % u['step'] == u['lo']]
